@@ -360,8 +360,8 @@ func runC05(t *testing.T, c *choice.Stream, r *Result, opt RunOpt) {
 	eval(off, flipMask)
 	// every offset of the damaged frame x three masks, for small frames
 	limit := 512
-	if opt.Tier != "thorough" && (fr.end-fr.off > 64 || r.Index%4 != 0) {
-		limit = 0 // quick tier: a quarter of the small-frame cases get the full enumeration
+	if opt.Tier != "thorough" && (fr.end-fr.off > 64 || r.Index%16 != 0) {
+		limit = 0 // quick tier: one in sixteen of the small-frame cases get the full enumeration
 	}
 	if fr.end-fr.off <= limit && r.Outcome != "violation" {
 		n := 1
